@@ -63,6 +63,11 @@ def cases(tier, seed):
                    'dictspec': (i // 12) % 2 == 1})
     for i in range(24 if tier == 'quick' else 300):
         cs.append({'kind': 'odimo', 'prog_seed': seed * 1000003 + 93000 + i, 'seed': seed * 41 + i})
+    # the repository's own tests under the in-situ "every model cost is finite and non-negative" contract
+    from vf import suitewl
+    cs += suitewl.cases(tier, select=('test_methods/',),
+                        slow_in_quick=('test_pit_search.py::TestPITSearch::test_regularization_loss_descent',
+                                       'test_regularization_loss_descent_channel'))
     return cs
 
 
@@ -477,6 +482,12 @@ def run_sn(case, ctx):
 
 
 def run_case(case, ctx):
+    if case.get('kind') == 'repo-suite':
+        from vf import suitewl
+        from vf.mon import insitu
+        insitu.install_model_cost(ctx)
+        suitewl.run(case, ctx, ('c12.insitu_cost_value',))
+        return
     if case['kind'] == 'pit':
         run_pit(case, ctx)
     elif case['kind'] == 'mps':
